@@ -480,6 +480,13 @@ func startServerIn(bin, base, dir string, env []string) (*exec.Cmd, string, *byt
 			time.Sleep(10 * time.Millisecond)
 		}
 		if ok {
+			// the port answered - but is it OUR child? Another worker may have bound the port between freePort() and the
+			// child's listen; then the child has exited ("address already in use") and the answer came from a stranger
+			time.Sleep(30 * time.Millisecond)
+			var ws syscall.WaitStatus
+			if pid, err := syscall.Wait4(cmd.Process.Pid, &ws, syscall.WNOHANG, nil); err == nil && pid == cmd.Process.Pid {
+				continue // the child is gone: try another port
+			}
 			return cmd, "http://" + addr, &buf, nil
 		}
 		cmd.Process.Kill()
